@@ -2,7 +2,7 @@
 From Coq Require Import List NArith ZArith Arith Bool.
 Import ListNotations.
 From Chiri Require Import Base.Bytes Base.Res Model.Finders Model.Markers Model.Format Model.Clean
-     Model.ListRender Proofs.C15Proofs.
+     Model.ListRender Spec.Ranges Spec.Forest Proofs.C15Proofs Proofs.MarkerShape Proofs.HighlightProofs.
 
 (** The regions of the list are, in order and with the same count, the markers that clean removes
     before whitespace tidying, all with status Ready. *)
@@ -29,6 +29,32 @@ Theorem C15_line_numbers :
   forall s needle, find_line (build_line_map s) needle = 1 + count_nl (firstn (S needle) s).
 Proof. exact find_line_counts_line_breaks. Qed.
 Print Assumptions C15_line_numbers.
+
+(** Count and shape of the regions: when no child region touches the opening or closing part of an
+    unwrapped element (tags do not sit on wrapper lines), the regions are, in order: one per
+    default-strategy element (regions nested inside it are not listed); for an unwrapped element its
+    opening part, the regions of its children, and its closing part. *)
+Theorem C15_region_count_and_order :
+  forall f lo hi ms,
+    wf_forest lo hi f -> Forall untouched f -> merge_markers f = Ok ms ->
+    map fst ms = flat_map flat_ranges_tree f.
+Proof. exact merge_markers_shape. Qed.
+Print Assumptions C15_region_count_and_order.
+
+(** The highlighted text: for a region that does not end in a line break (in a source without CR) the
+    coloured part is the whole region, and its per-line segments joined by line breaks are exactly the
+    text of the region. *)
+Theorem C15_highlighted_text_is_the_region :
+  forall content a b,
+    wf_utf8 content = true -> a < b -> b <= length content ->
+    is_boundary content a = true -> is_boundary content b = true ->
+    (forall i, nth_error content i <> Some CR) ->
+    nth_error content (b - 1) <> Some NL ->
+    let line_end := match find_next_lb content (b - 1) false with Some v => v | None => length content end in
+    Nat.min b line_end = b /\
+    join_nl (lines (sub content a b)) = sub content a b.
+Proof. exact highlighted_text_is_region_text. Qed.
+Print Assumptions C15_highlighted_text_is_the_region.
 
 (** Listing is a function of source and configuration only (the model is a Gallina function; the
     implementation's purity is covered by the differential run). *)
